@@ -130,4 +130,12 @@ PROPS = {
         ],
         "assumptions": ["hook object identity = kind/namespace/name; string comparison of hook names is Lean's String order (code points), which coincides with Go's byte order on UTF-8"],
     },
+    "C13": {
+        "corr": [("reuse", {"quick": 600, "thorough": 15000}), ("values", {"quick": 600, "thorough": 10000})],
+        "also": ["C04:coalesce"],
+        "trusted_base": [
+            "modelled, not verified: rendering (a probe template prints .Values; text/template and toJson are trusted to print what they are given), the release codec of the storage drivers (C10), charts with dependencies (the chain uses charts without sub-charts: CoalesceValues over chart trees is C11's model), --values/--set parsing (C04); CoalesceTables / CoalesceValues are the value model shared with C04 and C11 and tied there",
+        ],
+        "assumptions": ["value trees are those of the generator: maps, lists, strings, numbers, booleans, nulls, empty maps"],
+    },
 }
